@@ -184,7 +184,10 @@ FamRelaxed(z) == {C4("relaxed", t, Var("v"), VD(t, FALSE, Null), [v |-> v], TRUE
 
 OutStrs == {Str("abc"), Str("42"), Str("1.5"), Str("4294967297"), Str("true"), Str("RED"), Str("BLUE"), Str(T1), Str("")}
            \cup {Str(s) : s \in LenientTimes}
-Others == {[k |-> "other", s |-> "map"], [k |-> "other", s |-> "struct"], [k |-> "other", s |-> "chan"]}
+\* values of Go types no scalar knows: a map, a struct, a channel, and values of NAMED types whose underlying kind a scalar
+\* does know (type Age int8, type Word string ...): they are not the types a resolver is documented to return for a leaf
+Others == {[k |-> "other", s |-> x] : x \in {"map", "struct", "chan", "nint8", "nint16", "nint32", "nint64", "nint", "nuint8", "nfloat64", "nfloat32",
+                                               "nstring", "nbool"}}
 NilPtr == [k |-> "nilptr"]
 GLeaves == NumAllKinds \cup OutStrs \cup Bools \cup Syms \cup {Tim(T1), Null, NilPtr} \cup Others
            \cup {GList("iface", "", <<Num("i1", "int")>>), GList("typed", "int", <<Num("i1", "int")>>)}
